@@ -104,6 +104,69 @@ def check_line(line, obs, file_nl=b'\n', follow=b'', lead=b''):
             obs.count('error_line_not_the_header_line(diagnostic)')
 
 
+_GRAMMAR_CHARS = set('ABCDEFGHIJKLMNOPQRSTUVWXYZabcdefghijklmnopqrstuvwxyz'
+                     '0123456789_-./=, :#')
+
+
+def confusables():
+    """Non-ASCII code points that some Unicode-aware operation (case
+    mapping, case folding, compatibility normalisation, digit value) turns
+    into characters of the header grammar: [(char, ascii image)]. None of
+    them is in the grammar; a reader that decodes, folds or normalises
+    before matching would let them through."""
+    import unicodedata
+    out = []
+    for cp in list(range(0x80, 0x3000)) + list(range(0xFF00, 0xFFF0)) + \
+            list(range(0x1D400, 0x1D800)):
+        c = chr(cp)
+        images = set()
+        for f in (str.lower, str.upper, str.casefold,
+                  lambda x: unicodedata.normalize('NFKC', x),
+                  lambda x: unicodedata.normalize('NFKD', x),
+                  lambda x: unicodedata.normalize('NFKC', x).casefold()):
+            try:
+                images.add(f(c))
+            except Exception:
+                pass
+        d = unicodedata.digit(c, None)
+        if d is not None:
+            images.add(str(d))
+        for im in sorted(images):
+            if im and im != c and all(ch in _GRAMMAR_CHARS for ch in im):
+                out.append((c, im))
+                break
+    return out
+
+
+def confusable_lines():
+    for c, im in confusables():
+        encs = [c.encode('utf-8')]
+        if ord(c) < 0x100:
+            encs.append(c.encode('latin-1'))
+        for b in encs:
+            yield b'#.change: ' + b + b'=1'
+            yield b'#.change: a' + b + b'=1'
+            yield b'#.change: a=' + b
+            yield b'#.change: a=v' + b + b', b=2'
+            first = im[0]
+            if first.lower() in 'change':
+                i = 'change'.index(first.lower())
+                yield b'#.' + b'change'[:i] + b + b'change'[i + 1:] + b': a=1'
+            if first == '#':
+                yield b + b'.change: a=1'
+            if first == '.':
+                yield b'#' + b + b'change: a=1'
+            if first == ':':
+                yield b'#.change' + b + b' a=1'
+            if first == ' ':
+                yield b'#.change:' + b + b'a=1'
+                yield b'#.change: a=1,' + b + b'b=2'
+            if first == '=':
+                yield b'#.change: a' + b + b'1'
+            if first == ',':
+                yield b'#.change: a=1' + b + b' b=2'
+
+
 def semantically_invalid(pairs):
     """Does a known container option hold a value that is not usable?"""
     for k, v in pairs:
@@ -152,7 +215,12 @@ def options_ok(pairs, got, obs):
         ok = False
         for v in vals:
             s = v.decode('ascii')
-            if hg.is_decimal(v):
+            if hg.is_decimal(v) and hg.beyond_int_limit(s):
+                # more digits than this interpreter converts (PEP: int max
+                # str digits): the integer or the verbatim text
+                obs.count('tolerance:integer_beyond_interpreter_digit_limit')
+                cand = [hg.big_int(s), s]
+            elif hg.is_decimal(v):
                 cand = [int(s)]
             else:
                 cand = [s]
@@ -245,6 +313,31 @@ def run(ctx):
                 check_line(line[:-1] + b'+', obs, nl)
                 n += 3
                 obs.count('enum:block_boundary')
+    # non-ASCII look-alikes of grammar characters
+    for j, line in enumerate(confusable_lines()):
+        if ctx.mine(j):
+            check_line(line, obs)
+            n += 1
+            obs.count('enum:unicode_confusables')
+    # integer-valued options of every size, up to and beyond the
+    # interpreter's int<->str digit limit
+    if ctx.index == 3 % ctx.n:
+        import sys
+        lim = getattr(sys, 'get_int_max_str_digits', lambda: 4300)() or 4300
+        for nd in sorted(set(list(range(1, 26)) + [100, 639, 640, 641, 1000,
+                                                  lim - 1, lim, lim + 1,
+                                                  5000, 10000, 100000])):
+            for digits in (b'9' * nd, b'1' + b'0' * (nd - 1), b'0' * nd,
+                           b'-' + b'7' * nd):
+                for key in (b'id', b'length', b'x-n'):
+                    line = b'#.change: ' + key + b'=' + digits
+                    check_line(line, obs)
+                    check_line(line + b', z=1', obs,
+                               follow=b'#..file:\n#...meta: length=3\n{}\n')
+                    check_line(line + b'_', obs)
+                    check_line(line + b'+', obs)
+                    n += 4
+                    obs.count('enum:digit_runs')
     # blank separator lines in front of the main header, terminated like
     # the headers or the other way round: they are whitespace, not headers
     if ctx.index == 2 % ctx.n:
